@@ -169,9 +169,20 @@ func translate(p *Program) (c *compiled) {
 	}
 	c.goOut, c.goErr = renderGo(reg, p, msgs)
 	for name, f := range map[string]soyjs.JSFormatter{"es5": soyjs.ES5Formatter{}, "es6": soyjs.ES6Formatter{}} {
+		names := map[string]int{}
+		for _, sf := range reg.SoyFiles {
+			names[sf.Name]++
+		}
 		for _, sf := range reg.SoyFiles {
 			var buf bytes.Buffer
-			if err := soyjs.Write(&buf, sf, soyjs.Options{Formatter: f, Messages: msgs}); err != nil {
+			var err error
+			if name == "es5" && msgs == nil && names[sf.Name] == 1 {
+				// the per-file entry point of the public API: the file is addressed by its NAME
+				err = soyjs.NewGenerator(reg).WriteFile(&buf, sf.Name)
+			} else {
+				err = soyjs.Write(&buf, sf, soyjs.Options{Formatter: f, Messages: msgs})
+			}
+			if err != nil {
 				c.genErr[name] = err.Error()
 			}
 			c.js[name] = append(c.js[name], buf.String())
@@ -462,6 +473,13 @@ func generate(ctx *core.Ctx) []*Program {
 			}
 		}
 	}
+	// round 5: near-invalid bundle shapes
+	for _, kind := range ShapeKinds {
+		if p, ok := BuildShape(id, kind); ok {
+			progs = append(progs, p)
+			id++
+		}
+	}
 	// round 4: identifier hazards
 	for _, use := range identUses {
 		for _, name := range append(append([]string{}, HazardNames...), "<root>", "plain") {
@@ -716,6 +734,9 @@ func classify(ctx *core.Ctx, pool *jsrun.Pool, st *stats) {
 	for _, f := range st.failures {
 		p := f.Program
 		feature := "pos=" + p.Class + "," + f.Kind
+		if p.Class == "bundle-shape" {
+			feature = "pos=bundle-shape,shape=" + p.S + "," + f.Kind
+		}
 		if p.Class == "identifier" {
 			// the author's NAME is the hazard: say which use and which kind of name
 			feature = "pos=identifier,use=" + strings.TrimPrefix(p.Pos, "ident-") + ",name=" + nameClass(p.S) + "," + f.Kind
